@@ -27,6 +27,9 @@ func regularFDs() map[string]bool {
 		if err != nil || !strings.HasPrefix(target, "/") {
 			continue
 		}
+		if strings.HasPrefix(target, "/sys/") || strings.HasPrefix(target, "/proc/") {
+			continue // kernel pseudo files the Go runtime and libraries read now and then (cpu topology, cgroup limits): not storage
+		}
 		st, err := os.Stat(target)
 		if err == nil && st.Mode().IsRegular() {
 			out[target] = true
